@@ -3,7 +3,8 @@
 Written from the PMS text, not from pkgcore:
 
 * into/insinto/exeinto/docinto set the destination trees (defaults: /usr, "", "", ""), `X /` means the root.
-* doins [-r] f..    -> INSDESTTREE/basename, install options of the last insopts (default -m0644); -r descends
+* doins [-r] f..    -> INSDESTTREE/basename (basename of `dir/.` is ".", i.e. the contents go directly into the
+                       destination), install options of the last insopts (default -m0644); -r descends
                        into directories, "any directories are created as if dodir was called" (diropts);
                        EAPI>=4: symlinks are installed as symlinks.
 * dodoc [-r] f..    -> /usr/share/doc/${PF}/${docinto}/basename mode 0644; -r only EAPI>=4; directories without
@@ -218,11 +219,19 @@ def lexical_relpath(target, start):
     return "/".join(rel) if rel else "."
 
 
+def _put(res, rel, spec):
+    """two different sources for one destination in a single call: PMS does not say which one wins"""
+    old = res.entries.get(rel)
+    if old is not None and old.get("type") == "file" and spec.get("type") == "file" and old.get("src") != spec.get("src"):
+        spec = dict(spec, ambiguous=True)
+    res.entries[rel] = spec
+
+
 def _add_file_or_link(res, rel, srcpath, o, eapi, symlinks_as_links):
     if os.path.islink(srcpath) and symlinks_as_links:
         res.entries[rel] = {"type": "sym", "target": os.readlink(srcpath)}
     else:
-        res.entries[rel] = file_spec(srcpath, o)
+        _put(res, rel, file_spec(srcpath, o))
 
 
 def _add_tree(res, dest, srcdir, fileopts, diropts, symlinks_as_links, eapi, file_filter=None, skip_dirs=()):
@@ -242,7 +251,7 @@ def _add_tree(res, dest, srcdir, fileopts, diropts, symlinks_as_links, eapi, fil
                 if os.path.isdir(p) or symlinks_as_links:
                     res.entries[rel] = {"type": "sym", "target": os.readlink(p)}
                 else:
-                    res.entries[rel] = file_spec(p, fileopts)
+                    _put(res, rel, file_spec(p, fileopts))
                 installed = True
             elif os.path.isdir(p):
                 if name in skip_dirs:
@@ -251,9 +260,12 @@ def _add_tree(res, dest, srcdir, fileopts, diropts, symlinks_as_links, eapi, fil
                     installed = True
             else:
                 if file_filter is None or file_filter(p):
-                    res.entries[rel] = file_spec(p, fileopts)
+                    _put(res, rel, file_spec(p, fileopts))
                     installed = True
-        if file_filter is None or installed:
+        if base == "." and drel == top:
+            # `dir/.`: the contents go straight into the destination directory, whose own mode PMS leaves open
+            res.entries[drel or "."] = dict(dir_spec(diropts), mode=None, uid=None, gid=None)
+        elif file_filter is None or installed:
             res.entries[drel] = dir_spec(diropts)
         else:
             res.optional.add(drel)
@@ -427,7 +439,7 @@ def model(req, cwd, before):
                 else:
                     res.either("dohtml of a directory without -r")
             elif html_ok(sp):
-                res.entries[_j(dest, base)] = file_spec(sp, fo)
+                _put(res, _j(dest, base), file_spec(sp, fo))
         elif h == "doman":
             if is_dir:
                 return res.reject("doman of a directory")
